@@ -81,6 +81,10 @@ class Sampler:
         sd = np.where(np.isfinite(sd) & (sd > 0), sd, 0.1)
         for _ in range(int(n_steps)):
             noise = np.asarray(self.rng.normal(size=zn.shape)) * (scale * sd)
+            if hasattr(self.rng, "integers"):
+                # one small bounded-integer draw per step (a random reflection of the symmetric proposal): such draws consume
+                # 32-bit halves of the generator's 64-bit words, so the generator's buffered state matters for reproducibility
+                noise = noise * (1.0 - 2.0 * float(np.asarray(self.rng.integers(0, 2))))
             logu = np.log(np.asarray(self.rng.uniform(size=zn.shape[0])))
             prop = z + xp.asarray(noise, dtype=z.dtype)
             lp2 = self._eval(prop)
